@@ -232,6 +232,19 @@ def run(chk, repo):
                 mov_calls.append(c)
         if len(mov_calls) == 1:
             perm, cur, out_n = mov_calls[0].args[0].slice.value.id, unparse(mov_calls[0].args[0].slice.slice), unparse(mov_calls[0].func.value)
+        elif not mov_calls:
+            # element form: `for [i,] j in [enumerate(]PERM[)]: ... OUT.append(SEQ[j])`
+            for c in G.find_calls(f.node, 'append'):
+                if len(c.args) == 1 and isinstance(c.args[0], ast.Subscript) and unparse(c.args[0].value) == SEQ and isinstance(c.args[0].slice, ast.Name):
+                    j_ = c.args[0].slice.id
+                    for lp_ in [a_ for a_ in repo.ancestors(c) if isinstance(a_, ast.For)]:
+                        it_ = lp_.iter.args[0] if isinstance(lp_.iter, ast.Call) and call_name(lp_.iter) == 'enumerate' and lp_.iter.args else lp_.iter
+                        tg_ = lp_.target.elts[-1] if isinstance(lp_.target, ast.Tuple) else lp_.target
+                        if isinstance(it_, ast.Name) and isinstance(tg_, ast.Name) and tg_.id == j_:
+                            mov_calls.append(c)
+                            perm, cur, out_n = it_.id, j_, unparse(c.func.value)
+            if len(mov_calls) != 1:
+                mov_calls, perm, cur, out_n = [], None, None, None
         loops = [n for n in walk_no_nested(f.node) if isinstance(n, (ast.While, ast.For)) and mov_calls and any(x is mov_calls[0] for x in ast.walk(n))]
         shape[nm] = (SEQ, out_n, perm)
         if perm is None or not loops:
@@ -321,7 +334,38 @@ def run(chk, repo):
     chk.clauses.append('C20.kw (shared R-THREAD) parameters handed on as keyword arguments keep their name: no `a=b` between two parameters of one function')
     kwname(chk, repo, 'C20.kw', ['cli.decoy_fasta'], floor=0)
     from rules.shared import options_live
+    fasta_title_rule(chk, repo, 'C20.i')
     chk.clauses.append('C20.h (shared R-OPTION) every option decoyFasta itself defines is read by its code: none silently falls back to a library default')
     options_live(chk, repo, 'C20.h', 'cli.decoy_fasta:add_subparser_decoy_fasta', 'cli.decoy_fasta:decoy_fasta', ('cli.decoy_fasta', 'cli.common'), floor=7)
 
 
+def fasta_title_rule(chk, repo, rid):
+    """R-KEYS (writer): DecoyFasta.write emits every record of iterate_target_decoy_database() with its DESCRIPTION as the FASTA
+    title (targets keep their header verbatim, decoys carry the decoy string once): the writer is a FastaWriter whose record2title
+    returns <record>.description (lambda or attrgetter), and every record goes through write_record.  Biopython's generic
+    SeqIO.write(.., 'fasta') builds titles from id + description instead."""
+    chk.rule(rid, 'R-KEYS: the FASTA title written for a target / decoy record is its description', 1)
+    chk.clauses.append('C20.i decoyFasta writes each record with its description as the title (FastaWriter with record2title = description), every record of the requested order once')
+    w = repo.func('cli.decoy_fasta:DecoyFasta.write')
+    chk.uses(w)
+    fw = [c for c in ast.walk(w.node) if isinstance(c, ast.Call) and call_name(c) == 'FastaWriter']
+    ok = len(fw) == 1
+    detail = f"{len(fw)} FastaWriter constructions in DecoyFasta.write"
+    if ok:
+        from sa import sem
+        r2t = kwarg(fw[0], 'record2title')
+        e = sem.expand_names(w.node, repo.enclosing_stmt(fw[0]), r2t) if r2t is not None else None
+        if isinstance(e, ast.Name) and e.id in w.module.constants:
+            e = w.module.constants[e.id]
+        is_desc = (isinstance(e, ast.Lambda) and len(e.args.args) == 1 and unparse(e.body) == f"{e.args.args[0].arg}.description") or \
+            (isinstance(e, ast.Call) and unparse(e.func) in ('operator.attrgetter', 'attrgetter') and [unparse(a) for a in e.args] == ["'description'"])
+        # a lambda bound to a local is not expanded by expand_names: look the local up
+        if not is_desc and isinstance(r2t, ast.Name):
+            ds = [a.value for a in ast.walk(w.node) if isinstance(a, ast.Assign) and len(a.targets) == 1 and unparse(a.targets[0]) == r2t.id]
+            is_desc = len(ds) == 1 and isinstance(ds[0], ast.Lambda) and len(ds[0].args.args) == 1 and unparse(ds[0].body) == f"{ds[0].args.args[0].arg}.description"
+        wr = [c for c in ast.walk(w.node) if isinstance(c, ast.Call) and call_name(c) in ('write_record', 'write_file')]
+        ok = is_desc and len(wr) >= 1
+        detail = f"record2title = `{unparse(e) if e is not None else None}`, {len(wr)} write_record / write_file calls"
+    chk.ob(rid, 'records are written through FastaWriter(record2title=description)', w.where, ok,
+           f"{detail}: the header written for a record is not its description (Biopython's default title is `id description`; a decoy of a multi-word header "
+           "gets the decoy string twice / in the wrong place)", key=w.qual + '::title', fn=w.qual)
